@@ -169,9 +169,12 @@ def run(ctx, model_ok):
     # neither ends the literal nor starts a slot nor escapes what follows
     bases.append(("interp", 'x := "v"\nprint("q\\x22q")\nprint("d\\x24{x}")\nprint($"d\\x24{x}${x}")\nprint("b\\x5cn")\nprint($"\\x7b${x}\\x7d")\n'
                             'print($"${x}\\x22${x}\\x24")\nprint("\\x5c\\x22"->len())\n'))
-    # what those six programs print (escapes are spellings, slots are program text)
+    # a line break INSIDE a literal is text, not layout: raw CR LF, a lone CR, a lone LF, a tab are the characters they are
+    bases.append(("interp", 's := "a\r\nb"\nprint(s == "a\\x0d\\x0ab")\nprint(s->len())\nt := $"${s}\r\n|\r|\t|"\nprint(t->len())\nprint("x\ry" == "x\\x0dy")\n'
+                            'print($"l1\r\nl2${s}"->len())\n'))
+    # what those seven programs print (escapes are spellings, slots are program text)
     interp_expected = ["héllo, wörld!\n", "1: <x>\n2: <y>\n3: <x> <y>\n", "A: hello world\nA: hello world\nAB world C world\ntrue\n7\n",
-                       "aa\nbb\n", "[1][2][1][2]\n", 'q"q\nd${x}\nd${x}v\nb\\n\n{v}\nv"v$\n2\n']
+                       "aa\nbb\n", "[1][2][1][2]\n", 'q"q\nd${x}\nd${x}v\nb\\n\n{v}\nv"v$\n2\n', "true\n4\n11\ntrue\n10\n"]
     ib = [s for l, s in bases if l == "interp"]
     for src, want, r in zip(ib, interp_expected, core.cli_batch(ib)):
         if (r["stdout"], r["status"]) != (want, "0"):
